@@ -88,7 +88,11 @@ func newWorker(prog *ssa.Program, cfg *Config, harness string, models *modelInde
 		obligations: map[string]int{}, discharged: map[string]int{}, violCount: map[string]int{}, reached: map[string]int{},
 		incompl: map[string]int{}, aborted: map[string]int{}, stubs: map[string]bool{}}
 	if withSolver {
-		w.sol = newSolver(cfg.WorkDir, cfg.SolverCapMs)
+		kind := "z3"
+		if cfg.Strings {
+			kind = "cvc5"
+		}
+		w.sol = newSolver(cfg.WorkDir, cfg.SolverCapMs, kind)
 	}
 	return w
 }
@@ -353,7 +357,7 @@ func Run(prog *ssa.Program, entry *ssa.Function, cfg Config, models *modelIndex)
 			continue
 		}
 		kept = append(kept, v)
-		rp := &Replay{Vars: v.Vars, Choices: v.Choices, Oracle: v.Oracle}
+		rp := &Replay{Vars: v.Vars, SVars: v.SVars, Choices: v.Choices, Oracle: v.Oracle}
 		rw.runPath(entry, nil, rp)
 		for _, l := range rp.failed {
 			if SameFailure(v.Label, l) {
@@ -408,10 +412,10 @@ func atSuffix(s string) string {
 }
 
 // ReplayConcrete re-executes a harness with concrete values.
-func ReplayConcrete(prog *ssa.Program, entry *ssa.Function, vars map[string]int64, choices, oracle []int64) []string {
+func ReplayConcrete(prog *ssa.Program, entry *ssa.Function, vars map[string]int64, svars map[string]string, choices, oracle []int64) []string {
 	cfg := DefaultConfig()
 	w := newWorker(prog, &cfg, entry.Name(), NewModelIndex(prog), false)
-	rp := &Replay{Vars: vars, Choices: choices, Oracle: oracle}
+	rp := &Replay{Vars: vars, SVars: svars, Choices: choices, Oracle: oracle}
 	w.runPath(entry, nil, rp)
 	for why := range w.incompl {
 		rp.failed = append(rp.failed, "INCOMPLETE: "+why)
